@@ -159,6 +159,12 @@ let () = iter_lines (fun line ->
           for j = 0 to c - 1 do Buffer.add_string buf ("," ^ string_of_z (b.TableP4.pky (zi j))) done;
           Buffer.add_string buf ";" end
       done;
+      Buffer.add_string buf " F:";
+      List.iter (fun k ->
+        match TableP4.pfind t1 (z_of_string nl) k (hash k) with
+        | Ok (Some (b, s)) -> Buffer.add_string buf (string_of_z b ^ "." ^ string_of_z s ^ ",")
+        | Ok None -> Buffer.add_string buf "-,"
+        | _ -> Buffer.add_string buf "?,") keys;
       print_endline (Buffer.contents buf) in
     let natural = (budget = -2) in
     let nkeys = List.length keys in
@@ -208,6 +214,12 @@ let () = iter_lines (fun line ->
               if Gen_One.coq_IsFull st then Buffer.add_string buf ("," ^ string_of_z b.TableOne.oky);
               Buffer.add_string buf ";" end
           done;
+          Buffer.add_string buf " F:";
+          List.iter (fun k ->
+            match TableOne.ofind t1 l1z k (hash k) with
+            | Ok (Some b) -> Buffer.add_string buf (string_of_z b ^ ",")
+            | Ok None -> Buffer.add_string buf "-,"
+            | _ -> Buffer.add_string buf "?,") keys;
           print_endline (Buffer.contents buf)
         | Stuck -> print_endline "Stuck" | Fuel -> print_endline "Fuel" | Exn -> print_endline "Exn")
      | _ -> print_endline "insert-failed")
